@@ -34,6 +34,8 @@ def skeletons(tier):
             out.append({"id": f"r1-{w}", "ranks": {"0": w}})
     for w in ["CN", "NC"]:
         out.append({"id": f"r1-{w}-stream0", "ranks": {"0": w}, "params": {"stream0": True}})
+    for w, first in (("NC", "CN"), ("CN", "NC"), ("NM", "MCN")):
+        out.append({"id": f"r1-{w}-after-trace-{first}", "ranks": {"0": w}, "params": {"first": first}})
     for pre in ("temporal", "kernels", "idle"):
         out.append({"id": f"r1-CN-after-{pre}", "ranks": {"0": "CN"}, "params": {"pre": [pre]}})
     if tier == "quick":
@@ -77,8 +79,52 @@ def run(ctx):
             same = [(ctx.val(ts), ctx.val(ts) + ctx.val(d)) for c, ts, d in ks][1:4]
             (a0, a1), (b0, b1), (c0, c1) = same
             ctx.assume(sand(a0 <= b0, b1 <= c0, c0 < a1, b0 <= b1))
+    if ctx.params.get("first"):
+        return _run_after_other_trace(ctx, events, ivs)
     ta = ctx.open(events)
     precalls(ctx, ta)
+    _check(ctx, ta, ivs)
+
+
+def _run_after_other_trace(ctx, events, ivs):
+    """another trace (concrete times) is loaded and analysed first in the same process; the symbol numbering of the
+    trace under test is chosen among the rotations/reversal of its vocabulary (recorded in the counterexample and
+    replayed natively by patching the real parser's set() the same way), so that ids of the two traces collide in
+    every possible way; nothing of the first trace may leak into the answer for the second"""
+    import os
+    from harness.c11 import NDSet
+    if ctx.mode == "sym":
+        tp = ctx.mods["hta.common.trace_parser"]
+    else:
+        import hta.common.trace_parser as tp
+    tp.__dict__["set"] = NDSet
+    base = getattr(ctx, "outdir", None)
+    try:
+        ev0 = [TG.op("aten::relu", 0, 1000)]
+        for i, ch in enumerate(ctx.params["first"]):
+            name, cat, _ = KCLASS[ch]
+            ev0.append(TG.kernel(name, 10 + 20 * i, 15, stream=7 + 13 * (i % 2), corr=500 + i, cat=cat))
+        if ctx.mode != "sym":
+            ctx.outdir = os.path.join(base, "first")
+        NDSet.forced = (0, 0)
+        ta0 = ctx.open({0: ev0})
+        try:
+            ta0.get_comm_comp_overlap(visualize=False)
+        except Exception as ex:       # noqa: BLE001
+            if type(ex).__name__ in ("Unsupported", "HarnessError"):
+                raise
+        if ctx.mode != "sym":
+            ctx.outdir = os.path.join(base, "second")
+        NDSet.forced = (ctx.choose_recorded(6), ctx.choose_recorded(2))
+        ta = ctx.open(events)
+    finally:
+        NDSet.forced = None
+        if ctx.mode != "sym":
+            tp.__dict__.pop("set", None)
+    _check(ctx, ta, ivs)
+
+
+def _check(ctx, ta, ivs):
     res = ta.get_comm_comp_overlap(visualize=False)
     rk = ctx.cells(res["rank"])
     pct = ctx.cells(res["comp_comm_overlap_pctg"])
